@@ -11,6 +11,10 @@ PROP = {'rule': 'rapid state machine (-rapid.steps=50) over the real migration R
          'action (and a bias in the "next healthy step" action) produces the ordering: scheduler reports the reservation unschedulable -> '
          'a reconcile records ReservationScheduled=False on the job -> the reservation is later scheduled on the target pod\'s own node -> '
          'reconcile (class unschedulable-recorded-then-scheduled-on-pod-node-then-reconciled, ~5 % of reservation-first cases). '
+         'TestVerifC17UserInput runs the same machine over jobs the way users write them: spec.reservationOptions.reservationRef '
+         'naming a prepared (pending, allocate-once) Reservation without UID (2/3 of its jobs), spec.podRef without a name, deadlines '
+         'given and reached more often. Every PodMigrationJob status write that reaches the API is observed through the client wrapper '
+         '(also writes whose response is lost), so clause 2 is checked over the write history, not only at the end of a reconcile. '
          'non-trivial = the job\'s reservation changes state between two reconciles of a Running job, or an API write fails right after a '
          'successful Evict. distinct = FNV-64 fingerprint of the full history.',
  'assumptions': ['API = controller-runtime fake client with status subresources for PodMigrationJob and Reservation, plus server-side UID / '
@@ -29,7 +33,8 @@ PROP = {'rule': 'rapid state machine (-rapid.steps=50) over the real migration R
  'units': [{'name': 'migration',
             'pkg': 'pkg/descheduler/controllers/migration',
             'files': ['C17/c17_migration_test.go'],
-            'tests': [{'run': 'TestVerifC17History', 'quick': 600, 'quick_shards': 3, 'thorough': 3000, 'steps': 50}]}],
+            'tests': [{'run': 'TestVerifC17History', 'quick': 600, 'quick_shards': 3, 'thorough': 3000, 'steps': 50},
+                      {'run': 'TestVerifC17UserInput', 'quick': 600, 'quick_shards': 1, 'thorough': 3000, 'shards': 4, 'steps': 50}]}],
  'manifest': {'technique': 'property-based testing (rapid): state-machine histories of reconcile / environment / clock / restart / '
                            'fault-injection actions against the real controller, with a recording evictor and an independent oracle on the raw API objects',
               'text': 'Generated-history search: every Evict call of a reservation-first job is stamped with the persisted Reservation and pod '
